@@ -424,7 +424,7 @@ func TestC17URIExhaustive(t *testing.T) {
 	if ev.Thorough() {
 		maxLen = 4
 	}
-	var global, evals, nontriv, excluded int64
+	var global, evals, nontriv, excluded, knownD36 int64
 	fails := 0
 	for n := 0; n <= maxLen; n++ {
 		for i := 0; i < pow(len(alphabet), n); i++ {
@@ -447,7 +447,21 @@ func TestC17URIExhaustive(t *testing.T) {
 					excluded++
 				}
 			} else {
-				excluded += 2 // URI.parse deliberately refuses targets with CTL bytes: raw fragment/query with CTLs cannot round-trip
+				// URI.parse refuses any string with a control byte. A raw query string is given in its wire
+				// form, where a control byte must be escaped by the caller: excluded as a precondition. A
+				// fragment is in the quantifier as an arbitrary byte string: FullURI writes it verbatim and
+				// Parse then refuses the whole string. Known finding D36 (recorded, not repaired): the case
+				// is run, must fail the way the finding says, and is counted as excluded by it.
+				excluded++
+				c := &uriCase{Scheme: "http", Host: "example.com", Path: "/p", RawQuery: "a=1", Hash: s}
+				if msg := checkURI(c); msg != "" {
+					knownD36++
+					if !ev.ReportKnown(prop, "D36") {
+						fails++
+						ev.Fail(prop, "uri-exhaustive", c, msg)
+						t.Errorf("%s", msg)
+					}
+				}
 			}
 			for _, c := range cases {
 				evals++
@@ -467,7 +481,8 @@ func TestC17URIExhaustive(t *testing.T) {
 		}
 	}
 	rec.Exact(evals, nontriv)
-	rec.Excluded("raw-query-or-fragment-with-CTL-or-#", excluded)
+	rec.Excluded("raw-query-with-CTL-or-#-(wire-form-precondition)", excluded)
+	rec.Excluded("D36-fragment-with-control-byte", knownD36)
 	rec.Exhaustive(fmt.Sprintf("every string of 0..%d symbols over %q used as path segment, inner path segment, arg key+value, fragment (no CTL) and raw query (no CTL, no '#')", maxLen, alphabet))
 }
 
@@ -689,6 +704,148 @@ func TestC17CookieRandom(t *testing.T) {
 		}
 		if rec.WantSample() {
 			rec.Sample(cc)
+		}
+	})
+}
+
+// ---------------------------------------------------------------------------
+// URI setter programs: "assembled through the setters" includes assembling in several steps, reading
+// in between and changing one's mind. The oracle is the URI's own view when the string is taken
+// (Scheme/Host/Path/Hash getters and the argument list of QueryArgs, read from a copy so that
+// looking does not change the subject), compared with what parsing the full string yields.
+
+type uriOp struct {
+	Op   string `json:"op"` // set-query-string, args-add, args-del, args-peek, set-path, set-hash, set-host, copy
+	A, B string `json:",omitempty"`
+}
+
+type uriProgram struct {
+	NoNorm bool    `json:"disable_path_normalizing"`
+	Ops    []uriOp `json:"ops"`
+}
+
+func runURIProgram(p *uriProgram) string {
+	u := &protocol.URI{}
+	u.DisablePathNormalizing = p.NoNorm
+	u.SetScheme("http")
+	u.SetHost("example.com")
+	for _, o := range p.Ops {
+		switch o.Op {
+		case "set-query-string":
+			u.SetQueryString(o.A)
+		case "args-add":
+			u.QueryArgs().Add(o.A, o.B)
+		case "args-del":
+			u.QueryArgs().Del(o.A)
+		case "args-peek":
+			_ = u.QueryArgs().Peek(o.A)
+		case "set-path":
+			u.SetPath(o.A)
+		case "set-hash":
+			u.SetHash(o.A)
+		case "set-host":
+			u.SetHost(o.A)
+		case "copy":
+			c := &protocol.URI{}
+			u.CopyTo(c)
+			u = c
+		}
+	}
+	view := &protocol.URI{}
+	u.CopyTo(view)
+	wantArgs := listOf(view.QueryArgs())
+	wantHost, wantHash := string(u.Host()), string(u.Hash())
+	wantPath := string(u.Path())
+	if p.NoNorm {
+		wantPath = string(u.PathOriginal())
+		if wantPath == "" {
+			wantPath = "/"
+		}
+	}
+	full := append([]byte(nil), u.FullURI()...)
+	var u2 protocol.URI
+	u2.Parse(nil, full)
+	gotPath := string(u2.Path())
+	if p.NoNorm {
+		gotPath = string(u2.PathOriginal())
+	}
+	if got := string(u2.Host()); got != wantHost {
+		return fmt.Sprintf("%q: host parses back as %q, want %q", full, got, wantHost)
+	}
+	if gotPath != wantPath {
+		return fmt.Sprintf("%q: path parses back as %q, want %q", full, gotPath, wantPath)
+	}
+	if got := string(u2.Hash()); got != wantHash {
+		return fmt.Sprintf("%q: fragment parses back as %q, want %q", full, got, wantHash)
+	}
+	var want []kv
+	for _, e := range wantArgs {
+		if e.K != "" || e.V != "" {
+			want = append(want, kv{K: e.K, V: e.V})
+		}
+	}
+	var got []kv
+	for _, e := range listOf(u2.QueryArgs()) {
+		got = append(got, kv{K: e.K, V: e.V})
+	}
+	if fmt.Sprintf("%q", got) != fmt.Sprintf("%q", want) {
+		return fmt.Sprintf("%q: query parses back as %q, but the URI's own QueryArgs() held %q when the string was taken", full, got, want)
+	}
+	full2 := append([]byte(nil), u2.FullURI()...)
+	var u3 protocol.URI
+	u3.Parse(nil, full2)
+	if full3 := u3.FullURI(); !bytes.Equal(full2, full3) {
+		return fmt.Sprintf("formatting is not a fixed point: %q -> %q -> %q", full, full2, full3)
+	}
+	return ""
+}
+
+func TestC17URIPrograms(t *testing.T) {
+	rec := ev.New("uri-programs")
+	keys := []string{"a", "b", "token", "k k", "é"}
+	vals := []string{"", "1", "x y", "a&b=c", "/home", "%41"}
+	raws := []string{"", "a=1", "b=2&a=3", "token=secret", "a", "a=1&&b", "next=/home", "k%20k=v"}
+	rapid.Check(t, func(t *rapid.T) {
+		p := &uriProgram{NoNorm: rapid.IntRange(0, 3).Draw(t, "disablePathNormalizing") == 0}
+		n := rapid.IntRange(1, 7).Draw(t, "nOps")
+		queryOps, reads := 0, 0
+		for i := 0; i < n; i++ {
+			o := uriOp{Op: rapid.SampledFrom([]string{"set-query-string", "set-query-string", "args-add", "args-del", "args-peek", "set-path", "set-hash", "set-host", "copy"}).Draw(t, "op")}
+			switch o.Op {
+			case "set-query-string":
+				o.A = rapid.SampledFrom(raws).Draw(t, "raw")
+				queryOps++
+			case "args-add":
+				o.A, o.B = rapid.SampledFrom(keys).Draw(t, "k"), rapid.SampledFrom(vals).Draw(t, "v")
+				queryOps++
+			case "args-del", "args-peek":
+				o.A = rapid.SampledFrom(keys).Draw(t, "k")
+				reads++
+			case "set-path":
+				if p.NoNorm {
+					// with normalisation off the caller supplies the path in its wire form
+					o.A = rapid.SampledFrom([]string{"", "/", "/a", "/a/b/", "/a%20b", "/a/../b", "/%41"}).Draw(t, "rawPath")
+				} else {
+					o.A = "/" + genStr(t, "path", 12)
+				}
+			case "set-hash":
+				o.A = rapid.SampledFrom([]string{"", "frag", "a?b", "a#b", "é"}).Draw(t, "hash")
+			case "set-host":
+				o.A = rapid.SampledFrom(hosts).Draw(t, "host")
+			}
+			p.Ops = append(p.Ops, o)
+		}
+		nt := queryOps >= 2 || (queryOps >= 1 && reads >= 1) || p.NoNorm
+		cls := []string{"uri-program"}
+		if p.NoNorm {
+			cls = append(cls, "path-normalizing-disabled")
+		}
+		rec.Case(nt, ev.HashString(fmt.Sprintf("%+v", *p)), cls...)
+		if msg := runURIProgram(p); msg != "" {
+			t.Fatalf("%s\nprogram: %+v", msg, *p)
+		}
+		if nt && rec.WantSample() {
+			rec.Sample(p)
 		}
 	})
 }
